@@ -47,6 +47,16 @@ var Solvers = []SolverSpec{
 // buildQuery renders an SMT-LIB script: decls + axioms + assumptions + negated goal.
 // If slice is true only assumptions in the cone of influence of the goal are included.
 func (x *Exec) buildQuery(pcs [][]*Term, goals []*Term, slice bool, getValues []*Term) string {
+	return x.buildQueryOpt(pcs, goals, slice, getValues, false)
+}
+
+func hasQuant(t *Term) bool {
+	return strings.Contains(t.String(), "(forall ") || strings.Contains(t.String(), "(exists ")
+}
+
+// buildQueryOpt: with dropQuant, assumptions that still contain quantifiers (after the instantiation
+// step) are left out -- sound (fewer assumptions) and decidable for the solvers.
+func (x *Exec) buildQueryOpt(pcs [][]*Term, goals []*Term, slice bool, getValues []*Term, dropQuant bool) string {
 	// query construction declares skolem constants and caches term strings: serialised
 	x.qmu.Lock()
 	defer x.qmu.Unlock()
@@ -129,6 +139,12 @@ func (x *Exec) buildQuery(pcs [][]*Term, goals []*Term, slice bool, getValues []
 						scan(pcs[0][i], 0)
 					}
 				}
+				// small literal indices (fixed-size byte arrays: hashes, 128-bit integers)
+				if len(hyps) <= 8 {
+					for k := int64(0); k < 16; k++ {
+						cands = append(cands, BVLit64(k, 64))
+					}
+				}
 				n := 0
 				for _, h := range hyps {
 					v := h.QVars[0]
@@ -198,9 +214,20 @@ func (x *Exec) buildQuery(pcs [][]*Term, goals []*Term, slice bool, getValues []
 		}
 		// index: symbol -> assumptions mentioning it
 		idx := map[string][]int{}
+		// Constants connect assumptions. Function symbols (uninterpreted string functions etc.) connect
+		// only the quantified axioms that define them -- otherwise every string literal would drag the
+		// whole string axiomatisation (with array-sorted quantifiers) into every query.
+		isFunc := func(s string) bool {
+			d, ok := x.c.decls[s]
+			return ok && !strings.Contains(d, " () ")
+		}
 		for i, a := range asms {
+			quant := hasQuant(a.t)
 			for s := range a.syms {
 				if _, declared := x.c.decls[s]; declared {
+					if isFunc(s) && !quant {
+						continue
+					}
 					idx[s] = append(idx[s], i)
 				}
 			}
@@ -246,6 +273,9 @@ func (x *Exec) buildQuery(pcs [][]*Term, goals []*Term, slice bool, getValues []
 		}
 	}
 	for _, t := range used {
+		if dropQuant && hasQuant(t) {
+			continue
+		}
 		sb.WriteString("(assert ")
 		sb.WriteString(t.String())
 		sb.WriteString(")\n")
@@ -261,7 +291,9 @@ func (x *Exec) buildQuery(pcs [][]*Term, goals []*Term, slice bool, getValues []
 		}
 		sb.WriteString("))\n")
 	}
-	return sb.String()
+	// cvc5 reserves the str.* namespace for its theory of strings: our uninterpreted string functions
+	// are renamed on the way out
+	return strings.ReplaceAll(sb.String(), "str.", "gstr_")
 }
 
 // isGroundTerm: no bound variable (bound variables carry the markers !b !q !wf !eq in their names).
@@ -476,6 +508,12 @@ type solveOut struct {
 
 func (x *Exec) solveJob(pcs [][]*Term, goals []*Term, opts DischargeOpts) solveOut {
 	t0 := time.Now()
+	// stage 0: quantifier-free attempt (quantified assumptions instantiated where possible, the rest dropped)
+	if qf := x.buildQueryOpt(pcs, goals, true, nil, true); !strings.Contains(qf, "(forall ") && !strings.Contains(qf, "(exists ") {
+		if r0 := RunSolver(context.Background(), Solvers[0], qf, opts.QuickTimeout); r0.Verdict == VUnsat {
+			return solveOut{VUnsat, r0.Solver + " (quantifier-free)", time.Since(t0), "", ""}
+		}
+	}
 	script := x.buildQuery(pcs, goals, true, nil)
 	r := RunSolver(context.Background(), Solvers[0], script, opts.QuickTimeout)
 	if r.Verdict == VUnknown {
